@@ -26,6 +26,7 @@ ScOf(j) == [single   |-> [n \in Node |-> ToSet(j.single[n])],
             rorder   |-> [i \in 1..Len(j.rorder) |-> j.rorder[i]],
             late     |-> [n \in Node |-> j.late[n]],
             prewire  |-> [n \in Node |-> ToSet(j.prewire[n])],
+            once     |-> [n \in Node |-> j.once[n]],
             ilook    |-> [n \in Node |-> j.ilook[n]]]
 
 TraceScenarios == {ScOf(Trace[1].sc)}
@@ -53,11 +54,11 @@ TGet == /\ IsEv("get")
         /\ \E kind \in {"S", "L", "top", "I"} : Get(E.n, kind)
 TCreateBegin == IsEv("createBegin") /\ TopIs(E.n) /\ CreateBegin
 TAddFactory  == IsEv("addFactory") /\ TopIs(E.n) /\ AddFactory
-TResolve == IsEv("resolve") /\ TopIs(E.n) /\ E.ok = (sc.fail[E.n] # "resolve") /\ Resolve
-TBefore  == IsEv("before") /\ TopIs(E.n) /\ E.ok = (sc.fail[E.n] # "before") /\ BInit
-TAps     == IsEv("aps") /\ TopIs(E.n) /\ E.ok = (sc.fail[E.n] # "aps") /\ APS
-TInit    == IsEv("init") /\ TopIs(E.n) /\ E.ok = (sc.fail[E.n] # "init") /\ InitCb
-TAfter   == IsEv("after") /\ TopIs(E.n) /\ E.ok = (sc.fail[E.n] # "after") /\ (AInit \/ SAfter)
+TResolve == IsEv("resolve") /\ TopIs(E.n) /\ E.ok = ~Faulty(E.n, "resolve") /\ Resolve
+TBefore  == IsEv("before") /\ TopIs(E.n) /\ E.ok = ~Faulty(E.n, "before") /\ BInit
+TAps     == IsEv("aps") /\ TopIs(E.n) /\ E.ok = ~Faulty(E.n, "aps") /\ APS
+TInit    == IsEv("init") /\ TopIs(E.n) /\ E.ok = ~Faulty(E.n, "init") /\ InitCb
+TAfter   == IsEv("after") /\ TopIs(E.n) /\ E.ok = ~Faulty(E.n, "after") /\ (AInit \/ SAfter)
 TRun     == IsEv("run") /\ E.ok = (sc.fail[E.n] # "run") /\ RunnerRun(E.n)
 TBinst   == IsEv("binst") /\ TopIs(E.n) /\ Shortcut
 TCheck   == IsEv("getNoEarly") /\ TopIs(E.n) /\ E.res = L2[E.n] /\ ~E.err /\ Check
